@@ -1,7 +1,7 @@
 """TRANSLATOR: the transaction code of sqlobject/dbconnection.py -> PyTx blocks.
 
 `ConnectionHub.doInTransaction` and `Transaction.commit / rollback / begin / _makeObsolete / assertActive /
-_SO_delete / __del__` are translated statement by statement into the deep embedding of
+_SO_delete / _SO_update / __del__` are translated statement by statement into the deep embedding of
 `lean/SqlObjVerif/Model/PyTx.lean`.  Anything outside the fragment raises ExtractError (the framework then
 searches for a failing input and reports).  Conventions of the translation:
   * locals are numbered in order of first binding, the parameters after `self` first (`*args`, `**kw`
@@ -23,7 +23,7 @@ from . import ExtractError, parse, find_class, find_func, strip_doc, HEADER, lea
 TARGET = 'PyTx'
 
 HUB_METHODS = ['doInTransaction']
-TX_METHODS = ['assertActive', '_SO_delete', 'commit', 'rollback', '_makeObsolete', 'begin', '__del__']
+TX_METHODS = ['assertActive', '_SO_delete', '_SO_update', 'commit', 'rollback', '_makeObsolete', 'begin', '__del__']
 QUERIES = ('allIDs', 'allSubCachesByClassNames', 'allSubCaches', 'tryGetByName', 'tryGet')
 GLOBALS = ('PY2', 'connectionForURI', 'CommitSignal', 'RollbackSignal')
 EXC_PAT = {'AttributeError': '.attributeError', 'KeyError': '.keyError', 'AssertionError': '.assertionError',
@@ -33,7 +33,8 @@ PROPERTIES = {'threadConnection': ['threadingLocal', 'connection']}
 TX_INIT = ['self._obsolete = True', 'self._dbConnection = dbConnection',
            'self._connection = dbConnection.getConnection()',
            'self._dbConnection._setAutoCommit(self._connection, False)',
-           'self.cache = CacheSet(cache=dbConnection.doCache)', 'self._deletedCache = {}', 'self._obsolete = False']
+           'self.cache = CacheSet(cache=dbConnection.doCache)', 'self._deletedCache = {}', 'self._updatedCache = {}',
+           'self._obsolete = False']
 
 
 def lean_name(m):
@@ -462,7 +463,7 @@ def extract(repo):
     tx = find_class(tree, 'Transaction')
     _check_property(hub)
     _no_property(hub, ('processConnection', 'threadingLocal'))
-    _no_property(tx, ('_obsolete', '_connection', '_deletedCache', '_dbConnection', 'cache'))
+    _no_property(tx, ('_obsolete', '_connection', '_deletedCache', '_updatedCache', '_dbConnection', 'cache'))
     _check_text('Transaction.__init__', find_func(tx, '__init__'), TX_INIT)
     _check_text('DBAPI.transaction', find_func(find_class(tree, 'DBAPI'), 'transaction'), ['return Transaction(self)'])
     if any(isinstance(s, ast.FunctionDef) and s.name == '__setattr__' for s in hub.body + tx.body):
